@@ -276,6 +276,19 @@ func registerRT(e *Engine) {
 		return VBig{T: Add(Mul(t.Sec, IntC64(1000000000)), t.Nsec)}
 	})
 	rt("StrLen", func(p *Path, a []Value) Value { return VInt{StrLen(tStr(a[0]))} })
+	// StrEq(a, b) == (a == b); the engine adds a structurally derived sufficient condition as a
+	// disjunct so that equalities of rendered integers are provable by integer reasoning alone
+	rt("StrEq", func(p *Path, a []Value) Value {
+		x, y := tStr(a[0]), tStr(a[1])
+		eq := Eq(x, y)
+		if st := strEqStructural(x, y); st != nil {
+			return VBool{Or(st, eq)}
+		}
+		return VBool{eq}
+	})
+	rt("IntStr", func(p *Path, a []Value) Value { return VStr{p.intToStrDecided(a[0].(VBig).T)} })
+	rt("Pad9", func(p *Path, a []Value) Value { return VStr{padLeftZeros(a[0].(VBig).T, 9)} })
+	rt("IntMod", func(p *Path, a []Value) Value { return VBig{T: Mod(a[0].(VBig).T, a[1].(VBig).T)} })
 }
 
 func registerCore(e *Engine) {
@@ -378,6 +391,11 @@ func registerCore(e *Engine) {
 	// ----- fmt / strconv -----
 	in["fmt.Sprintf"] = func(p *Path, a []Value) Value {
 		f, ok := tStr(a[0]).ConstStr()
+		if ok {
+			if t, done := p.symbolicFormat(f, a[1]); done {
+				return VStr{t}
+			}
+		}
 		if ok && !strings.Contains(f, "%") {
 			return VStr{StrC(f)}
 		}
@@ -771,3 +789,86 @@ func (p *Path) tryFormat(f string, varargs Value) (string, bool) {
 
 var _ = strconv.Itoa
 var _ = types.Typ
+
+// symbolicFormat handles format strings made only of literal text, %s (string argument), %d
+// (integer argument) and %0Nd (zero-padded, N <= 18, argument proved to be in [0, 10^N)) with
+// possibly symbolic arguments, producing an exact SMT string term.
+func (p *Path) symbolicFormat(f string, varargs Value) (*Term, bool) {
+	sl, ok := varargs.(VSlice)
+	if !ok {
+		return nil, false
+	}
+	args := sl.elems()
+	out := StrC("")
+	ai := 0
+	allConst := true
+	for i := 0; i < len(f); {
+		if f[i] != '%' {
+			j := i
+			for j < len(f) && f[j] != '%' {
+				j++
+			}
+			out = StrConcat(out, StrC(f[i:j]))
+			i = j
+			continue
+		}
+		// verb
+		j := i + 1
+		pad := 0
+		if j < len(f) && f[j] == '0' {
+			k := j + 1
+			for k < len(f) && f[k] >= '0' && f[k] <= '9' {
+				pad = pad*10 + int(f[k]-'0')
+				k++
+			}
+			j = k
+		}
+		if j >= len(f) || ai >= len(args) {
+			return nil, false
+		}
+		iv, ok := args[ai].(VIface)
+		if !ok {
+			return nil, false
+		}
+		ai++
+		switch f[j] {
+		case 's':
+			sv, ok := iv.Val.(VStr)
+			if !ok || pad != 0 {
+				return nil, false
+			}
+			if _, c := sv.T.ConstStr(); !c {
+				allConst = false
+			}
+			out = StrConcat(out, sv.T)
+		case 'd':
+			nv, ok := iv.Val.(VInt)
+			if !ok {
+				return nil, false
+			}
+			if _, c := nv.T.ConstInt(); !c {
+				allConst = false
+			}
+			if pad == 0 {
+				out = StrConcat(out, intToStr(nv.T))
+			} else {
+				if pad > 18 {
+					return nil, false
+				}
+				p10 := new(big.Int).Exp(bi(10), bi(int64(pad)), nil)
+				inRange := And(Ge(nv.T, IntC64(0)), Lt(nv.T, IntC(p10)))
+				if !p.Decide(inRange) {
+					return nil, false // wider than the pad or negative: fall back to an opaque string
+				}
+				out = StrConcat(out, padLeftZeros(nv.T, pad))
+			}
+		default:
+			return nil, false
+		}
+		i = j + 1
+	}
+	if ai != len(args) || allConst {
+		return nil, false // constant case is handled by tryFormat
+	}
+	return out, true
+}
